@@ -32,6 +32,6 @@ else
 fi
 # keep the build cache bounded
 sz=$(du -sm "${GOCACHE:-$HOME/.cache/go-build}" 2>/dev/null | cut -f1)
-# (never while another go command is running: cleaning under a running build breaks it)
-if [ -n "$sz" ] && [ "$sz" -gt 20000 ] && ! pgrep -x go >/dev/null 2>&1; then go clean -cache >/dev/null 2>&1; fi
+# (never while another go command or another check is running: cleaning under a running build breaks it)
+if [ -n "$sz" ] && [ "$sz" -gt 40000 ] && ! pgrep -x go >/dev/null 2>&1 && ! pgrep -x goagverif >/dev/null 2>&1 && ! pgrep -x compile >/dev/null 2>&1; then go clean -cache >/dev/null 2>&1; fi
 exit $rc
